@@ -4,12 +4,22 @@
   replay is a fold of the text-move applier and of the table update over the move list, so the
   position after a prefix is the start of the replay of the rest (`playMoves_append`); the
   bookkeeping of the applier keeps side and caches consistent (`makeMove_flips_side`).
-  Not proved (decided by the correspondence: every replayed prefix of generated games is compared
-  with the SPEC's applyAll, with its scratch key, and with the chain of generated successors):
-  `makeMove_eq_gen` (the applier agrees with the generator on every legal move).
+  FULL on the model (Proofs/UciTextFacts, MakeMoveObs):
+    * `text_replay_reproduces_successor`: every move the engine generates, printed as text and replayed
+      with `make_move`, reproduces its own successor — board, side to move, castling rights, en passant
+      target, king caches, and (with `KeyOK` of both) the key;
+    * `replay_of_a_legal_move`: `make_move` on the UCI text of any LEGAL move returns exactly the position
+      the rules give (`Spec.apply`), well-formed again, key exact;
+    * `replay_of_a_legal_game`: by induction over the move list, `position … moves m1 … mn` with every
+      move legal in turn holds exactly `applyAll`, for every length; the position part of `playMoves` is
+      this replay (`playMoves_position`).
+  The string operations of `make_move` (byte slices, square parsing, the four corner substring tests,
+  the promotion letter, the four literal castling strings) are evaluated for all 64 x 64 x 5 texts
+  by kernel computation (`textOK_all`).
 -/
 import Walleye.Props.C15
 import Walleye.Model.UciText
+import Walleye.Proofs.MakeMoveObs
 namespace Walleye
 
 theorem pointDisplay_length (p : Point) : (pointDisplay p).length = 2 := rfl
@@ -35,5 +45,74 @@ theorem playMoves_prefix (h : Hasher) (p q r : Pos) (t t1 t2 : DrawTable) (a b :
     (h1 : playMoves h p t a = some (q, t1)) (h2 : playMoves h q t1 b = some (r, t2)) :
     playMoves h p t (a ++ b) = some (r, t2) := by
   rw [playMoves_append, h1]; exact h2
+
+/-- every generated move, printed and replayed, reproduces its successor -/
+theorem text_replay_reproduces_successor (h : Hasher) (p : Pos) (wf : WFp p) :
+    ∀ q ∈ generateMoves h p .all, ∃ txt q', moveText q = some txt ∧ makeMove h p txt = some q' ∧ Obs q' q := by
+  intro q hq
+  obtain ⟨a, b, q', hl, _, _, hmk, hobs⟩ := makeMove_reproduces_successor h p wf q hq
+  exact ⟨_, q', moveText_eq q a b hl, hmk, hobs⟩
+
+/-- with exact keys on both sides, the key is reproduced as well -/
+theorem text_replay_reproduces_key (h : Hasher) (a b : Pos) (ho : Obs a b) (ha : KeyOK h a) (hb : KeyOK h b) :
+    a.key = b.key := Obs.key h a b ho ha hb
+
+/-- replaying the text of a legal move gives the position the rules give -/
+theorem replay_of_a_legal_move (h : Hasher) (p : Pos) (wf : WFp p) (hinv : Inv h p) (m : Spec.Move)
+    (hlegal : Spec.legal (abs p) m = true) :
+    ∃ q', makeMove h p (uciText m) = some q' ∧ abs q' = Spec.apply (abs p) m ∧ WFp q' ∧ Inv h q' := by
+  obtain ⟨q', h1, h2, h3, h4, _⟩ := makeMove_legal h p wf hinv m hlegal
+  exact ⟨q', h1, h2, h3, h4⟩
+
+/-- the position part of `play_out_position`'s move loop -/
+def replayPos (h : Hasher) : Pos → List (List Char) → Option Pos
+  | p, [] => some p
+  | p, m :: ms => (makeMove h p m).bind fun q => replayPos h q ms
+
+theorem playMoves_position (h : Hasher) (p : Pos) (t : DrawTable) (txts : List (List Char)) (r : Pos) (t' : DrawTable)
+    (hp : playMoves h p t txts = some (r, t')) : replayPos h p txts = some r := by
+  induction txts generalizing p t with
+  | nil => simp only [playMoves] at hp; injection hp with hp; injection hp with e _; rw [replayPos, e]
+  | cons m ms ih =>
+    simp only [playMoves] at hp
+    cases hm : makeMove h p m with
+    | none => rw [hm] at hp; cases hp
+    | some q =>
+      rw [hm] at hp
+      simp only at hp
+      cases ha : t.add q.key with
+      | none => rw [ha] at hp; cases hp
+      | some t1 =>
+        rw [ha] at hp
+        simp only [replayPos, hm, Option.bind_some]
+        exact ih q t1 hp
+
+/-- a sequence of moves, each legal in the position reached by the previous ones -/
+inductive LegalSeq : Spec.Position → List Spec.Move → Prop where
+  | nil (P : Spec.Position) : LegalSeq P []
+  | cons {P : Spec.Position} {m : Spec.Move} {ms : List Spec.Move} :
+      Spec.legal P m = true → LegalSeq (Spec.apply P m) ms → LegalSeq P (m :: ms)
+
+theorem replay_aux (h : Hasher) (ms : List Spec.Move) :
+    ∀ (p : Pos) (P : Spec.Position), abs p = P → WFp p → Inv h p → LegalSeq P ms →
+      ∃ r, replayPos h p (ms.map uciText) = some r ∧ abs r = ms.foldl Spec.apply P ∧ WFp r ∧ Inv h r := by
+  induction ms with
+  | nil => intro p P hP wf hinv _; exact ⟨p, rfl, hP, wf, hinv⟩
+  | cons m ms ih =>
+    intro p P hP wf hinv hl
+    cases hl with
+    | cons hm hrest =>
+      subst hP
+      obtain ⟨q', h1, h2, h3, h4⟩ := replay_of_a_legal_move h p wf hinv m hm
+      obtain ⟨r, r1, r2, r3, r4⟩ := ih q' _ h2 h3 h4 hrest
+      refine ⟨r, ?_, ?_, r3, r4⟩
+      · simp only [List.map_cons, replayPos, h1, Option.bind_some]; exact r1
+      · simp only [List.foldl_cons]; exact r2
+
+/-- **C04**: replaying any legal game of any length gives exactly the position the rules give -/
+theorem replay_of_a_legal_game (h : Hasher) (ms : List Spec.Move) (p : Pos) (wf : WFp p) (hinv : Inv h p)
+    (hl : LegalSeq (abs p) ms) :
+    ∃ r, replayPos h p (ms.map uciText) = some r ∧ abs r = ms.foldl Spec.apply (abs p) ∧ WFp r ∧ Inv h r :=
+  replay_aux h ms p (abs p) rfl wf hinv hl
 
 end Walleye
